@@ -64,6 +64,7 @@ type Case struct {
 	HTTP       *HttpInfo    `json:"http,omitempty"`
 	Stream     *StreamInfo  `json:"stream,omitempty"`
 	Writer     []WriterRow  `json:"writer,omitempty"`
+	Triggers   []string     `json:"triggers,omitempty"`
 }
 
 func hx(s string) string { return hex.EncodeToString([]byte(s)) }
